@@ -1,6 +1,6 @@
 /- Line-protocol driver for the wire model (engine `wire`). -/
 import AxVerif.Model.Wire
-import AxVerif.Generated
+import AxVerif.Generated.Wire
 namespace AxVerif.Wire
 open AxVerif
 
@@ -146,3 +146,7 @@ def parseDefects (flags : List String) : Defects :=
   { capUnbounded := flags.contains "capUnbounded" }
 
 end AxVerif.Wire
+
+namespace AxVerif.Drivers
+def wire (flags : List String) (line : String) : String := AxVerif.Wire.step (AxVerif.Wire.parseDefects flags) line
+end AxVerif.Drivers
